@@ -162,10 +162,11 @@ def main(argv):
         if f.get("status") == "open" and prop in f.get("properties", []):
             print(f"KNOWN-FINDING: property={prop} {f['what']} [key={f['key']} observed={hit.get(f['key'], 0)}]")
 
-    os.makedirs(os.path.join(V, "replays"), exist_ok=True)
+    OUT = os.environ.get("VERIF_OUT") or V   # mutant/self-test runs write their evidence elsewhere
+    os.makedirs(os.path.join(OUT, "replays"), exist_ok=True)
     for key, v in sorted(new.items()):
         w0 = v["witnesses"][0] if v["witnesses"] else {"shard": 0, "nshards": nshards}
-        rp = os.path.join(V, "replays", f"{prop}-{re.sub(r'[^A-Za-z0-9_.-]+', '_', key)[:120]}.json")
+        rp = os.path.join(OUT, "replays", f"{prop}-{re.sub(r'[^A-Za-z0-9_.-]+', '_', key)[:120]}.json")
         with open(rp, "w") as fh:
             json.dump({"property": prop, "key": key, "tier": tier, "seed": seed, "shard": w0.get("shard", 0),
                        "nshards": w0.get("nshards", nshards), "count": v["count"], "msg": v["msg"],
@@ -207,8 +208,8 @@ def main(argv):
         "wall_s": round(time.time() - t0, 2),
         "violations": len(new),
     }
-    os.makedirs(os.path.join(V, "evidence"), exist_ok=True)
-    evp = os.path.join(V, "evidence", f"{prop}.json")
+    os.makedirs(os.path.join(OUT, "evidence"), exist_ok=True)
+    evp = os.path.join(OUT, "evidence", f"{prop}.json")
     try:
         import jsonschema
         with open("/root/.vp/EVIDENCE.schema.json") as f:
